@@ -31,6 +31,8 @@ var c10Sets = [][]mockq.KV{
 
 type c10Input struct {
 	Sets     []int  `json:"sets"`     // indexes into the alphabet, one record each (timestamps 1s apart)
+	// Explicit label sets (used instead of Sets when non-empty): pairs that collide under some separator-free serialisation.
+	Explicit [][]mockq.KV `json:"explicit,omitempty"`
 	Shape    string `json:"shape"`    // count, sum-count, avg-unwrap
 	Grouping string `json:"grouping"` // "", by(a), by(a,c), by(ab), without(a), without(c)
 	Range    bool   `json:"range"`    // 3-step range query instead of instant
@@ -50,8 +52,14 @@ var c10GroupingNames = []string{"", "by(a)", "by(a,c)", "by(ab)", "without(a)", 
 
 func c10Build(in c10Input) ([]mockq.Rec, refmodel.Expr) {
 	var data []mockq.Rec
-	for i, si := range in.Sets {
-		labels := append([]mockq.KV(nil), c10Sets[si]...)
+	sets := in.Explicit
+	if len(sets) == 0 {
+		for _, si := range in.Sets {
+			sets = append(sets, c10Sets[si])
+		}
+	}
+	for i, set := range sets {
+		labels := append([]mockq.KV(nil), set...)
 		if in.Shape == "avg-unwrap" {
 			labels = append(labels, mockq.KV{K: "v", V: "2"})
 		}
@@ -66,7 +74,7 @@ func c10Build(in c10Input) ([]mockq.Rec, refmodel.Expr) {
 		e = &refmodel.VecAgg{Op: "sum", Grouping: g, X: &refmodel.RangeAgg{Op: "count_over_time", RangeNS: 10 * sec}}
 		if g == nil {
 			// grouping-free sum is C11's subject; here: identity grouping over every label of the alphabet
-			e = &refmodel.VecAgg{Op: "sum", Grouping: &refmodel.Grouping{Labels: []string{"a", "ab", "c", "cd", "d", "e"}}, X: &refmodel.RangeAgg{Op: "count_over_time", RangeNS: 10 * sec}}
+			e = &refmodel.VecAgg{Op: "sum", Grouping: &refmodel.Grouping{Labels: []string{"a", "ab", "b", "bc", "c", "cd", "d", "e"}}, X: &refmodel.RangeAgg{Op: "count_over_time", RangeNS: 10 * sec}}
 		}
 	case "avg-unwrap":
 		e = &refmodel.RangeAgg{Op: "avg_over_time", Unwrap: "v", RangeNS: 10 * sec, Grouping: g}
@@ -91,7 +99,7 @@ func c10Check(r *vkit.Run, in c10Input, replay []int) {
 		outcomes[res.String()] = true
 		if why := compare(res, exp, nil); why != "" {
 			r.Fail("C10", in, c.TrimmedChoices(), map[string]any{"query": expr.Text(), "result": res.String()}, exp,
-				fmt.Sprintf("%s over label sets %v: %s", expr.Text(), c10Describe(in.Sets), why), "")
+				fmt.Sprintf("%s over label sets %v: %s", expr.Text(), c10DescribeIn(in), why), "")
 		}
 		if c.Diverged != "" {
 			r.HarnessError("replay divergence: %s", c.Diverged)
@@ -111,10 +119,66 @@ func c10Check(r *vkit.Run, in c10Input, replay []int) {
 	if st.Capped {
 		r.Cap("map-order exploration stopped early")
 	}
-	r.State(vkit.J(in.Sets) + in.Shape + in.Grouping + fmt.Sprint(in.Range))
+	r.State(vkit.J(in.Sets) + vkit.J(in.Explicit) + in.Shape + in.Grouping + fmt.Sprint(in.Range))
 	if r.WantSample() && len(in.Sets) >= 2 && in.Grouping != "" {
 		r.Sample(map[string]any{"input": in, "query": expr.Text(), "label_sets": c10Describe(in.Sets), "map_order_executions": st.Executions})
 	}
+}
+
+func c10DescribeIn(in c10Input) []string {
+	if len(in.Explicit) == 0 {
+		return c10Describe(in.Sets)
+	}
+	var out []string
+	for _, set := range in.Explicit {
+		l := refmodel.Labels{}
+		for _, kv := range set {
+			l[kv.K] = kv.V
+		}
+		out = append(out, l.Key())
+	}
+	return out
+}
+
+// c10Colliding enumerates every pair of distinct label sets (1-2 labels over 5 names x 5 values) whose
+// sorted name/value sequences coincide under some serialisation that omits a separator: none at all,
+// only between name and value, or only between pairs. Any keying scheme that forgets one of the two
+// separators merges exactly such a pair.
+func c10Colliding() [][2][]mockq.KV {
+	names := []string{"a", "ab", "b", "bc", "c"}
+	values := []string{"", "b", "c", "bc", "cd"}
+	var sets [][]mockq.KV
+	for _, n := range names {
+		for _, v := range values {
+			sets = append(sets, []mockq.KV{{K: n, V: v}})
+		}
+	}
+	for i, n1 := range names {
+		for _, n2 := range names[i+1:] {
+			for _, v1 := range values {
+				for _, v2 := range values {
+					sets = append(sets, []mockq.KV{{K: n1, V: v1}, {K: n2, V: v2}})
+				}
+			}
+		}
+	}
+	ser := func(set []mockq.KV, nv, pair string) string {
+		out := ""
+		for _, kv := range set {
+			out += kv.K + nv + kv.V + pair
+		}
+		return out
+	}
+	var out [][2][]mockq.KV
+	for i := range sets {
+		for j := i + 1; j < len(sets); j++ {
+			a, b := sets[i], sets[j]
+			if ser(a, "", "") == ser(b, "", "") || ser(a, "\x00", "") == ser(b, "\x00", "") || ser(a, "", "\x00") == ser(b, "", "\x00") {
+				out = append(out, [2][]mockq.KV{a, b})
+			}
+		}
+	}
+	return out
 }
 
 func c10Describe(sets []int) []string {
@@ -178,6 +242,22 @@ func c10Run(r *vkit.Run) {
 			r.NonTrivial()
 		}
 	}
+	// every pair of label sets that collides under a separator-free serialisation (default map order)
+	coll := c10Colliding()
+	for _, pr := range coll {
+		idx++
+		if !r.Mine(idx) || r.Stop() {
+			continue
+		}
+		for _, shape := range []string{"count", "sum-count"} {
+			for _, rg := range []bool{false, true} {
+				c10Check(r, c10Input{Explicit: [][]mockq.KV{pr[0], pr[1]}, Shape: shape, Range: rg, Bound: 0}, nil)
+				c10Check(r, c10Input{Explicit: [][]mockq.KV{pr[1], pr[0], pr[0]}, Shape: shape, Range: rg, Bound: 0}, nil)
+			}
+		}
+		r.NonTrivial()
+	}
+	r.Count("separator_collision_pairs", int64(len(coll)))
 	r.Note("bounds", fmt.Sprintf("all tuples of 1..%d label sets from a 12-set colliding alphabet x {count_over_time, sum by/without(...) of it, avg_over_time by/without(...)} x 6 groupings x {instant, 3-step range}; every map iteration inside Eval is a choice point, deviation bound %d (complete rotation set: all label maps have <= 8 entries)", n, bound))
 }
 
